@@ -778,10 +778,10 @@ func (x *Exec) evalCall(env *Env, e *Expr) (Val, error) {
 		if err := need(1); err != nil {
 			return nil, err
 		}
-		ep := env.cur.get("svcEpoch")
+		ep := w.get("svcEpoch")
 		if ep == nil && env.st != nil {
 			x.ghost(env.st, "svcEpoch", SInt)
-			if ep = env.cur.get("svcEpoch"); ep == nil {
+			if ep = w.get("svcEpoch"); ep == nil {
 				ep = env.st.world.get("svcEpoch")
 			}
 		}
@@ -808,7 +808,7 @@ func (x *Exec) evalCall(env *Env, e *Expr) (Val, error) {
 		if err := need(1); err != nil {
 			return nil, err
 		}
-		toks := env.cur.get("nftTokens")
+		toks := w.get("nftTokens")
 		if toks == nil || !isMapSort(toks.Sort) {
 			return nil, fmt.Errorf("nftsof: no token table in this unit")
 		}
@@ -1030,6 +1030,12 @@ func (x *Exec) evalCall(env *Env, e *Expr) (Val, error) {
 			return nil, err
 		}
 		return EMod(args[0], BigLit(two64)), nil
+	case "wrapi64": // the int64 a Go computation of this integer yields (two's complement wrap-around)
+		if err := need(1); err != nil {
+			return nil, err
+		}
+		half := BigLit(new(big.Int).Lsh(big.NewInt(1), 63))
+		return Sub(EMod(Add(args[0], half), BigLit(two64)), half), nil
 	}
 	// calls of repo functions (executed symbolically; must have a single non-panicking outcome)
 	if v, ok, err := x.specRepoCall(env, name, e); ok || err != nil {
